@@ -175,6 +175,27 @@ func (sp *SeqProfile) Profile(rule string) Profile {
 	return Profile{Name: sp.Name, Exec: sp.Exec(), Rule: rule}
 }
 
+// OnlyOracles wraps an Exec so that only violations of the named oracles (plus
+// panics, deadlocks, leaks and hangs) are kept: used when a profile of one
+// property is reused as a driver for another property's monitor.
+func OnlyOracles(e explore.Exec, oracles ...string) explore.Exec {
+	keep := map[string]bool{"panic": true, "deadlock": true, "leak": true, "hang": true}
+	for _, o := range oracles {
+		keep[o] = true
+	}
+	return func(c *explore.Chooser) *explore.Outcome {
+		out := e(c)
+		var vs []explore.Viol
+		for _, v := range out.Viols {
+			if keep[v.Oracle] {
+				vs = append(vs, v)
+			}
+		}
+		out.Viols = vs
+		return out
+	}
+}
+
 var (
 	kA = []byte("a")
 	kB = []byte("b")
